@@ -181,6 +181,9 @@ impl<T> Sender<T> {
     pub fn max_capacity(&self) -> usize {
         self.c().cap
     }
+    pub fn same_channel(&self, other: &Self) -> bool {
+        core::ptr::eq(self.chan, other.chan)
+    }
 }
 pub struct SendFut<'a, T> {
     tx: &'a Sender<T>,
@@ -260,6 +263,21 @@ impl<T> Receiver<T> {
     }
     pub fn recv(&mut self) -> RecvFut<'_, T> {
         RecvFut { rx: self }
+    }
+    pub fn len(&self) -> usize {
+        self.c().buf().len()
+    }
+    pub fn is_empty(&self) -> bool {
+        self.c().buf().len() == 0
+    }
+    pub fn is_closed(&self) -> bool {
+        self.c().rx_closed.get() || self.c().tx_count.get() == 0
+    }
+    pub fn capacity(&self) -> usize {
+        self.c().cap - self.c().buf().len()
+    }
+    pub fn max_capacity(&self) -> usize {
+        self.c().cap
     }
     pub fn close(&mut self) {
         self.c().rx_closed.set(true);
